@@ -223,6 +223,8 @@ def scanPod (env : Env) (cfg : Cfg) (st : ScanSt) (idx : Nat) (pod : Pod) : Scan
     match atoi (lbl pod.batchId) with
     | none => .ok st
     | some podBatchID =>
+      -- fixes/C12-1.patch: a batch-id outside the plan is skipped, not used as an index
+      if podBatchID < 1 || podBatchID > st.planned.length then .ok st else
       match decAt st.planned (podBatchID - 1) with
       | none => .panic
       | some planned' => .ok { st with planned := planned' }
